@@ -736,13 +736,16 @@ theorem chain_reqHead {f : Core} {max : Nat} (hmax : 0 < max) {m0 sl m u v : Byt
   rw [sg]
   simp [headBytes, List.append_assoc]
 
-/-- chain of the head of a response followed by `more` -/
-theorem chain_rspHead {f : Core} {max : Nat} (hmax : 0 < max) {m0 sl reason : Bytes} {ver : Nat × Nat}
+/-- the cores a fresh parser can be in before its start line is complete -/
+def W3 (c0 : Core) (c : Core) : Prop := c = c0 ∨ c = cWait c0 ∨ c = cStarted c0
+
+/-- chain of the head of a response followed by `more`, from any of the start cores -/
+theorem chain_rspHead' {f : Core} {max : Nat} (hmax : 0 < max) {m0 sl reason : Bytes} {ver : Nat × Nat}
     {status : Nat} {ls : List Bytes} {H : Hdrs}
     (w : RspHead max sl ls ver status reason H) (cB : Core) (more : List Elem)
     (hd : ∀ tail, headDone (rspAtHeadEnd m0 max ver status reason H) H tail = .cont cB tail)
     (hm : Chain f cB more) :
-    ∃ e es, Chain f (core0 .rsp m0 max) (e :: es) ∧
+    ∃ e es, (∀ c, W3 (core0 .rsp m0 max) c → Chain f c (e :: es)) ∧
       segsOf (e :: es) = headBytes sl ls ++ segsOf more := by
   obtain ⟨v, hp, hv⟩ := w.parsed
   have e1 := rspStart_ok (core0 .rsp m0 max) rfl rfl rfl sl v reason status ver w.clean w.short hp w.not100 hv
@@ -750,10 +753,143 @@ theorem chain_rspHead {f : Core} {max : Nat} (hmax : 0 < max) {m0 sl reason : By
   have e3 := headEnd_ok (rspAtHeadEnd m0 max ver status reason H) cB H rfl rfl hHlen hmax hd
   obtain ⟨ch, sg⟩ := chain_leader (f := f) (rspAfterStart (core0 .rsp m0 max) ver status reason) .head rfl ls [] H
     (⟨crlf, (· = rspAtHeadEnd m0 max ver status reason H), cB⟩ :: more) w.lines w.hdrs ⟨rfl, e3, hm⟩
-  refine ⟨_, _, ⟨Or.inl rfl, e1, ch⟩, ?_⟩
+  refine ⟨_, _, fun c hc => ⟨hc, e1, ch⟩, ?_⟩
   simp only [segsOf] at sg ⊢
   rw [sg]
   simp [headBytes, List.append_assoc]
+
+/-! ### interim `100 Continue` responses before the response -/
+
+/-- an interim response on the wire: status line with status 100, header lines -/
+structure Interim where
+  sl : Bytes
+  ls : List Bytes
+
+def Interim.ok (max : Nat) (i : Interim) : Prop :=
+  cleanLine i.sl ∧ i.sl.length < max ∧ (∃ v r, parseStatusLine i.sl = .ok (v, 100, r)) ∧
+  (∀ l ∈ i.ls, goodLine max l) ∧ (∃ h, foldHdr [] i.ls = some h)
+
+def interimBytes : List Interim → Bytes
+  | [] => []
+  | i :: r => headBytes i.sl i.ls ++ interimBytes r
+
+theorem rspStart100_ok (c0 : Core) (hk : c0.kind = .rsp) (hg : c0.gen = .fresh) (hst : c0.started = false)
+    (sl v reason : Bytes) (hl : cleanLine sl) (hlen : sl.length < c0.max)
+    (hp : parseStatusLine sl = .ok (v, 100, reason)) :
+    Elem.ok ⟨sl ++ crlf, W3 c0, { cStarted c0 with gen := .contHdrs [] }⟩ := by
+  have hstarted : ∀ tail, run (cStarted c0) (sl ++ (crlf ++ tail)) = run { cStarted c0 with gen := .contHdrs [] } tail := by
+    intro tail
+    rw [run_unfold]
+    have hlt := lineTry_clean (max := c0.max) hl (Nat.le_of_lt hlen) true tail
+    simp [stepOn, cStarted, cWait, closedCond, hk, hlt, hp, enterLeader]
+  have hne : ∀ tail, sl ++ (crlf ++ tail) ≠ [] := by intro tail; simp [crlf]
+  have hproper : ∀ p, p <+: sl ++ crlf → p ≠ sl ++ crlf →
+      run (cStarted c0) p = { core := cStarted c0, msg := p } := by
+    intro p hp' hpne
+    rw [run_unfold]
+    have hlt := lineTry_proper (max := c0.max) hl hlen true hp' hpne
+    simp [stepOn, cStarted, cWait, closedCond, hk, hlt]
+  refine ⟨by simp [crlf], ?_, ?_, ?_⟩
+  · intro c hc tail
+    simp only [List.append_assoc]
+    cases hb : sl ++ (crlf ++ tail) with
+    | nil => exact absurd hb (hne tail)
+    | cons b r =>
+      rcases hc with rfl | rfl | rfl
+      · rw [run_fresh _ hg, run_wait_cons, ← hb, hstarted]
+      · rw [run_wait_cons, ← hb, hstarted]
+      · rw [← hb, hstarted]
+  · intro c hc p hp' hpne
+    cases p with
+    | nil =>
+      rcases hc with rfl | rfl | rfl
+      · exact ⟨cWait c, Or.inr (Or.inl rfl), by rw [run_fresh _ hg, run_wait_nil _ hst]⟩
+      · exact ⟨cWait c0, Or.inr (Or.inl rfl), run_wait_nil _ hst⟩
+      · exact ⟨cStarted c0, Or.inr (Or.inr rfl), hproper [] hp' hpne⟩
+    | cons b r =>
+      refine ⟨cStarted c0, Or.inr (Or.inr rfl), ?_⟩
+      rcases hc with rfl | rfl | rfl
+      · rw [run_fresh _ hg, run_wait_cons, hproper _ hp' hpne]
+      · rw [run_wait_cons, hproper _ hp' hpne]
+      · exact hproper _ hp' hpne
+  · intro c hc buf
+    rcases hc with rfl | rfl | rfl <;> simp [resumeCheck, hg, cWait, cStarted]
+
+/-- the empty line that ends an interim response: back to the status line -/
+theorem contEnd_ok (c : Core) (h : Hdrs) (hg : c.gen = .contHdrs h) (hcl : c.closed = false)
+    (hH : h.length ≤ MAX_HEADERS) (hmax : 0 < c.max) :
+    Elem.ok ⟨crlf, (· = c), { c with gen := .startLine }⟩ := by
+  refine ⟨by simp [crlf], ?_, ?_, ?_⟩
+  · intro c' hc' tail
+    subst hc'
+    rw [run_unfold]
+    simp only [stepOn, hg, leaderIter_blank hH]
+  · intro c' hc' p hp hpne
+    subst hc'
+    refine ⟨c', rfl, ?_⟩
+    rw [run_unfold]
+    obtain ⟨h1, h2⟩ := proper_crlf hp hpne
+    have hi := leaderIter_proper (max := c'.max) (h := h) (l := []) (by simp [cleanLine]) hmax h1 h2
+    simp [stepOn, hg, hi]
+  · intro c' hc' buf
+    subst hc'
+    simp [resumeCheck, hg, closedCond_false hcl]
+
+/-- any number of interim responses in front of a chain that starts at the status line -/
+theorem chain_interims {f : Core} {max : Nat} (hmax : 0 < max) (m0 : Bytes) (more : List Elem)
+    (hm : ∀ c, W3 (core0 .rsp m0 max) c → Chain f c more) :
+    ∀ (pre : List Interim), (∀ i ∈ pre, i.ok max) →
+      ∃ els, (∀ c, W3 (core0 .rsp m0 max) c → Chain f c (els ++ more)) ∧
+        segsOf (els ++ more) = interimBytes pre ++ segsOf more ∧ (pre ≠ [] → els ≠ []) := by
+  intro pre
+  induction pre with
+  | nil => intro _; exact ⟨[], hm, by simp [interimBytes], by simp⟩
+  | cons i pre ih =>
+    intro hok
+    obtain ⟨els, hch, hsg, _⟩ := ih (fun j hj => hok j (by simp [hj]))
+    obtain ⟨h1, h2, ⟨v, r, h3⟩, h4, ⟨h, h5⟩⟩ := hok i (by simp)
+    let c0 := core0 .rsp m0 max
+    have e1 := rspStart100_ok c0 rfl rfl rfl i.sl v r h1 h2 h3
+    have hHlen := foldHdr_length i.ls [] h (by simp) h5
+    have e3 := contEnd_ok { cStarted c0 with gen := .contHdrs h } h rfl rfl hHlen hmax
+    have hnext : Chain f { cStarted c0 with gen := .startLine } (els ++ more) := hch _ (Or.inr (Or.inr rfl))
+    obtain ⟨A, hA⟩ : ∃ A, A = leaderElems (cStarted c0) .cont [] i.ls := ⟨_, rfl⟩
+    obtain ⟨x, hx⟩ : ∃ x : Elem, x = ⟨crlf, (· = { cStarted c0 with gen := .contHdrs h }),
+      { cStarted c0 with gen := .startLine }⟩ := ⟨_, rfl⟩
+    obtain ⟨ch, sg⟩ := chain_leader (f := f) (cStarted c0) .cont rfl i.ls [] h (x :: (els ++ more))
+      h4 h5 (by rw [hx]; exact ⟨rfl, e3, hnext⟩)
+    rw [← hA] at ch sg
+    have heq : (A ++ x :: els) ++ more = A ++ x :: (els ++ more) := by simp
+    refine ⟨⟨i.sl ++ crlf, W3 c0, { cStarted c0 with gen := .contHdrs [] }⟩ :: (A ++ x :: els), ?_, ?_, by simp⟩
+    · intro c hc
+      refine ⟨hc, e1, ?_⟩
+      show Chain f _ ((A ++ x :: els) ++ more)
+      rw [heq]
+      exact ch
+    · show segsOf (_ :: ((A ++ x :: els) ++ more)) = _
+      rw [heq]
+      simp only [segsOf]
+      rw [sg]
+      simp only [segsOf, hx]
+      rw [hsg]
+      simp [interimBytes, headBytes, List.append_assoc]
+
+/-- chain of interim responses and the head of a response followed by `more` -/
+theorem chain_rspHead {f : Core} {max : Nat} (hmax : 0 < max) {m0 sl reason : Bytes} {ver : Nat × Nat}
+    {status : Nat} {ls : List Bytes} {H : Hdrs} (pre : List Interim) (hpre : ∀ i ∈ pre, i.ok max)
+    (w : RspHead max sl ls ver status reason H) (cB : Core) (more : List Elem)
+    (hd : ∀ tail, headDone (rspAtHeadEnd m0 max ver status reason H) H tail = .cont cB tail)
+    (hm : Chain f cB more) :
+    ∃ e es, Chain f (core0 .rsp m0 max) (e :: es) ∧
+      segsOf (e :: es) = interimBytes pre ++ (headBytes sl ls ++ segsOf more) := by
+  obtain ⟨e, es, hch, hsg⟩ := chain_rspHead' (f := f) hmax (m0 := m0) w cB more hd hm
+  obtain ⟨els, hch', hsg', _⟩ := chain_interims hmax m0 (e :: es) hch pre hpre
+  cases hels : els ++ e :: es with
+  | nil => simp at hels
+  | cons e' es' =>
+    refine ⟨e', es', ?_, ?_⟩
+    · rw [← hels]; exact hch' _ (Or.inl rfl)
+    · rw [← hels, hsg', hsg]
 
 /-! ### bodies -/
 
@@ -826,10 +962,11 @@ theorem request_length_any_split {max : Nat} (hmax : 0 < max) {m0 sl m u v : Byt
   exact script_done hf rfl hch' ps (by rw [hsg, hs, hps]; simp [List.append_assoc])
 
 theorem response_length_any_split {max : Nat} (hmax : 0 < max) {m0 sl reason : Bytes} {ver : Nat × Nat}
-    {status : Nat} {ls : List Bytes} {H : Hdrs} (w : RspHead max sl ls ver status reason H)
+    {status : Nat} {ls : List Bytes} {H : Hdrs} (pre : List Interim) (hpre : ∀ i ∈ pre, i.ok max)
+    (w : RspHead max sl ls ver status reason H)
     (hch : isChunked H = false) (data rest : Bytes)
     (hn : rspLen (rspAtHeadEnd m0 max ver status reason H) H = some data.length) (ps : List Bytes)
-    (hps : ps.flatten = headBytes sl ls ++ (data ++ rest)) :
+    (hps : ps.flatten = interimBytes pre ++ (headBytes sl ls ++ (data ++ rest))) :
     feedAll (init .rsp m0 max) ps =
       { core := doneCore { rspHeadCore' (rspAtHeadEnd m0 max ver status reason H) H with
                             body := [], gen := .bodyLength } data,
@@ -839,7 +976,7 @@ theorem response_length_any_split {max : Nat} (hmax : 0 < max) {m0 sl reason : B
   obtain ⟨f, more, hm, hf, hs⟩ := tail_length
     { rspHeadCore' (rspAtHeadEnd m0 max ver status reason H) H with body := [], gen := .bodyLength } data rfl rfl
     (by simp [rspHeadCore', rspHeadCore, hn])
-  obtain ⟨e, es, hch', hsg⟩ := chain_rspHead (f := f) hmax (m0 := m0) w _ more hd hm
+  obtain ⟨e, es, hch', hsg⟩ := chain_rspHead (f := f) hmax (m0 := m0) pre hpre w _ more hd hm
   exact script_done hf rfl hch' ps (by rw [hsg, hs, hps]; simp [List.append_assoc])
 
 theorem request_chunked_any_split {max : Nat} (hmax : 0 < max) {m0 sl m u v : Bytes} {ls : List Bytes}
@@ -861,13 +998,14 @@ theorem request_chunked_any_split {max : Nat} (hmax : 0 < max) {m0 sl m u v : By
   exact script_done (fun t => run_done _ rfl t) rfl hch' ps (by rw [hsg, hs, hps]; simp [List.append_assoc])
 
 theorem response_chunked_any_split {max : Nat} (hmax : 0 < max) {m0 sl reason : Bytes} {ver : Nat × Nat}
-    {status : Nat} {ls : List Bytes} {H : Hdrs} (w : RspHead max sl ls ver status reason H)
+    {status : Nat} {ls : List Bytes} {H : Hdrs} (pre : List Interim) (hpre : ∀ i ∈ pre, i.ok max)
+    (w : RspHead max sl ls ver status reason H)
     (hch : isChunked H = true)
     (ks : List Chunk) (hks : ∀ k ∈ ks, k.wf max)
     (ll : Bytes) (pm0 : Parms) (hll : cleanLine ll) (hlls : ll.length < max) (hl0 : chunkLine ll = .ok (0, pm0))
     (ts : List Bytes) (Tr : Hdrs) (hts : ∀ l ∈ ts, goodLine max l) (hTr : foldHdr [] ts = some Tr)
     (rest : Bytes) (ps : List Bytes)
-    (hps : ps.flatten = headBytes sl ls ++ (chunksBytes ks ++ (lastBytes ll ts ++ rest))) :
+    (hps : ps.flatten = interimBytes pre ++ (headBytes sl ls ++ (chunksBytes ks ++ (lastBytes ll ts ++ rest)))) :
     feedAll (init .rsp m0 max) ps =
       { core := chunkedDone { rspHeadCore' (rspAtHeadEnd m0 max ver status reason H) H with
                                body := [], parms := some [], gen := .chunkSize } ks pm0 Tr,
@@ -877,16 +1015,17 @@ theorem response_chunked_any_split {max : Nat} (hmax : 0 < max) {m0 sl reason : 
   obtain ⟨more, hm, hs, _⟩ := tail_chunked
     { rspHeadCore' (rspAtHeadEnd m0 max ver status reason H) H with body := [], parms := some [], gen := .chunkSize }
     rfl rfl hmax ks hks ll pm0 hll hlls hl0 ts Tr hts hTr
-  obtain ⟨e, es, hch', hsg⟩ := chain_rspHead hmax (m0 := m0) w _ more hd hm
+  obtain ⟨e, es, hch', hsg⟩ := chain_rspHead hmax (m0 := m0) pre hpre w _ more hd hm
   exact script_done (fun t => run_done _ rfl t) rfl hch' ps (by rw [hsg, hs, hps]; simp [List.append_assoc])
 
 /-- a response whose body ends when the connection closes: all bytes after the head are body,
 and `close(); parse()` completes the message -/
 theorem response_close_any_split {max : Nat} (hmax : 0 < max) {m0 sl reason : Bytes} {ver : Nat × Nat}
-    {status : Nat} {ls : List Bytes} {H : Hdrs} (w : RspHead max sl ls ver status reason H)
+    {status : Nat} {ls : List Bytes} {H : Hdrs} (pre : List Interim) (hpre : ∀ i ∈ pre, i.ok max)
+    (w : RspHead max sl ls ver status reason H)
     (hch : isChunked H = false)
     (hn : rspLen (rspAtHeadEnd m0 max ver status reason H) H = none) (body : Bytes) (ps : List Bytes)
-    (hps : ps.flatten = headBytes sl ls ++ body) :
+    (hps : ps.flatten = interimBytes pre ++ (headBytes sl ls ++ body)) :
     feedAll (init .rsp m0 max) ps =
       { core := { rspHeadCore' (rspAtHeadEnd m0 max ver status reason H) H with
                    body := body, gen := .bodyClose },
@@ -899,7 +1038,7 @@ theorem response_close_any_split {max : Nat} (hmax : 0 < max) {m0 sl reason : By
     w.notEvented hch hn tail
   obtain ⟨e, es, hch', hsg⟩ := chain_rspHead
     (f := { rspHeadCore' (rspAtHeadEnd m0 max ver status reason H) H with body := [], gen := .bodyClose })
-    hmax (m0 := m0) w _ [] hd rfl
+    hmax (m0 := m0) pre hpre w _ [] hd rfl
   have h1 := script_close (rest := body) rfl rfl rfl hch' ps (by rw [hsg, hps]; simp [segsOf])
   refine ⟨h1, ?_⟩
   rw [show init .rsp m0 max = { core := core0 .rsp m0 max, msg := [] } from rfl, h1, parse_eq]
